@@ -87,7 +87,10 @@ func define(o *getoptions.GetOpt, d OptDef) {
 	case 2:
 		fns = append(fns, o.Required("need "+d.Name))
 	}
-	if d.Valid != nil {
+	if d.Valid != nil && d.Suggested != nil && callerTables != nil {
+		// the program keeps its levels in one table and hands a part of it to the option
+		fns = append(fns, o.ValidValues(callerTable(d)[:len(d.Valid)]...))
+	} else if d.Valid != nil {
 		fns = append(fns, o.ValidValues(d.Valid...))
 	}
 	if d.Suggested != nil {
@@ -126,7 +129,7 @@ func define(o *getoptions.GetOpt, d OptDef) {
 	case 11:
 		o.StringMap(d.Name, d.Min, d.Max, fns...)
 	case 12: // the program's own map already holds entries when the option is declared
-		mv := map[string]string{"zeta": "26", "alpha": "1", "mid": "13", "beta": "2"}
+		mv := map[string]string{"zeta": "26", "alpha": "1", "mid": "13", "beta": "2", "Accept": "text", "ACCEPT": "any"}
 		o.StringMapVar(&mv, d.Name, d.Min, d.Max, fns...)
 	case 13:
 		sv := []string{"pre1", "pre2", "pre3"}
@@ -141,6 +144,31 @@ func define(o *getoptions.GetOpt, d OptDef) {
 			var v string
 			o.StringVar(&v, d.Name, "vardef", fns...)
 		}
+	}
+}
+
+// callerTables: tables owned by the program (package-level variables in a real one), which survive
+// from one execution of the definition to the next; the library is handed sub-slices of them.
+var callerTables map[string][]string
+
+func callerTable(d OptDef) []string {
+	t, ok := callerTables[d.Name]
+	if !ok {
+		t = append(append(make([]string, 0, len(d.Valid)+2), d.Valid...), "spare-1", "spare-2")
+		callerTables[d.Name] = t
+	}
+	return t
+}
+
+func forEachOpt(c *CmdDef, f func(d OptDef)) {
+	for _, d := range c.Opts {
+		f(d)
+	}
+	for _, d := range c.LateOpts {
+		f(d)
+	}
+	for i := range c.Subs {
+		forEachOpt(&c.Subs[i], f)
 	}
 }
 
@@ -217,6 +245,19 @@ var (
 	fnErr    bool
 )
 
+// showValue prints an option value; very long ones (a range of 40000 integers) by length and digest.
+func showValue(v interface{}) string {
+	s := fmt.Sprint(v)
+	if len(s) <= 2048 {
+		return s
+	}
+	h := uint64(14695981039346656037)
+	for i := 0; i < len(s); i++ {
+		h = (h ^ uint64(s[i])) * 1099511628211
+	}
+	return fmt.Sprintf("%s...(%d bytes, fnv %x)", s[:64], len(s), h)
+}
+
 func errClass(err error) string {
 	if err == nil {
 		return "nil"
@@ -281,13 +322,23 @@ func observeArgv(sc *Scenario, ord Order, st *obsStats, shared []string) (out st
 		}()
 		// executions are independent of each other: the order in which the three requests are served
 		// within one execution is not part of the input either
-		modes := []string{"parse", "bash", "zsh"}
+		modes := []string{"parse", "bash", "zsh", "bare"}
 		if ord.Base == "rot" || (ord.Base == "shuffle" && ord.Seed%3 == 2) {
-			modes = []string{"zsh", "parse", "bash"}
+			modes = []string{"bare", "zsh", "parse", "bash"}
 		}
+		if callerTables == nil {
+			callerTables = map[string][]string{}
+			defer func() { callerTables = nil }()
+		}
+		// what the program's own tables hold when this execution starts
+		forEachOpt(&sc.Root, func(d OptDef) {
+			if d.Valid != nil && d.Suggested != nil {
+				fmt.Fprintf(&b, "caller-table %s=%q\n", d.Name, callerTable(d))
+			}
+		})
 		parts := map[string]*strings.Builder{}
 		defer func() {
-			for _, mode := range []string{"parse", "bash", "zsh"} {
+			for _, mode := range []string{"parse", "bash", "zsh", "bare"} {
 				if pb := parts[mode]; pb != nil {
 					b.WriteString(pb.String())
 				}
@@ -311,7 +362,7 @@ func observeArgv(sc *Scenario, ord Order, st *obsStats, shared []string) (out st
 			oldExit := getoptions.VerifSetExit(func(c int) { exit = c })
 			os.Unsetenv("COMP_LINE")
 			os.Unsetenv("ZSHELL")
-			if mode != "parse" {
+			if mode == "bash" || mode == "zsh" {
 				// the environment is a set: which of the two was exported first is not part of it
 				zfirst := mode == "zsh" && (ord.Base == "desc" || (ord.Base == "shuffle" && ord.Seed%2 == 1))
 				if zfirst {
@@ -363,7 +414,12 @@ func observeArgv(sc *Scenario, ord Order, st *obsStats, shared []string) (out st
 					}
 				}
 				argv := sc.Argv
-				if mode != "parse" {
+				if mode == "bare" {
+					// the same definition run with no arguments at all: what it sees must not depend on
+					// whether the run with arguments came before or after it
+					argv = nil
+				}
+				if mode == "bash" || mode == "zsh" {
 					// bash calls the completion program with: command, word being completed, previous word
 					parts := strings.Split(sc.CompLine, " ")
 					cur, prev := parts[len(parts)-1], "prog"
@@ -378,10 +434,27 @@ func observeArgv(sc *Scenario, ord Order, st *obsStats, shared []string) (out st
 				}
 				rem, err := opt.Parse(in)
 				fmt.Fprintf(pb, "%s.remaining=%q\n%s.error=%s\n%s.exit=%d\n%s.completions=%q\n", mode, rem, mode, errClass(err), mode, exit, mode, cw.String())
-				if mode == "parse" {
+				if mode == "bare" {
 					for _, n := range nodes {
 						for _, d := range append(append([]OptDef(nil), n.def.Opts...), n.def.LateOpts...) {
-							fmt.Fprintf(pb, "value %s --%s=%v called=%v as=%q\n", n.path, d.Name, n.opt.Value(d.Name), n.opt.Called(d.Name), n.opt.CalledAs(d.Name))
+							fmt.Fprintf(pb, "bare-value %s --%s=%s called=%v\n", n.path, d.Name, showValue(n.opt.Value(d.Name)), n.opt.Called(d.Name))
+						}
+					}
+				}
+				if mode == "parse" {
+					for _, n := range nodes {
+						all := append(append([]OptDef(nil), n.def.Opts...), n.def.LateOpts...)
+						for _, d := range all {
+							fmt.Fprintf(pb, "value %s --%s=%s called=%v as=%q\n", n.path, d.Name, showValue(n.opt.Value(d.Name)), n.opt.Called(d.Name), n.opt.CalledAs(d.Name))
+						}
+						// asking for names that were not declared (here: proper prefixes of declared ones)
+						for i, d := range all {
+							if i < 3 && len(d.Name) >= 2 {
+								q := d.Name[:1+len(d.Name)/2]
+								if q != d.Name {
+									fmt.Fprintf(pb, "query %s %q: value=%s called=%v as=%q\n", n.path, q, showValue(n.opt.Value(q)), n.opt.Called(q), n.opt.CalledAs(q))
+								}
+							}
 						}
 					}
 					for _, n := range nodes {
@@ -396,35 +469,42 @@ func observeArgv(sc *Scenario, ord Order, st *obsStats, shared []string) (out st
 						_, _, e2 := opt.GetRequiredArgInt(rest)
 						fmt.Fprintf(pb, "required-arg=%q %s %s writer=%q\n", a1, errClass(e1), errClass(e2), rw.String())
 						getoptions.Writer = &w
-						// the context the program hands to Dispatch is part of the input
-						dctx, dcancel := context.Background(), context.CancelFunc(func() {})
-						switch sc.Ctx {
-						case "cancelled":
-							dctx, dcancel = context.WithCancel(dctx)
-							dcancel()
-						case "fn":
-							dctx, dcancel = context.WithCancel(dctx)
-							fnCancel = dcancel
-						case "deadline":
-							dctx, dcancel = context.WithDeadline(dctx, time.Unix(0, 0))
-						}
-						fnErr = sc.FnErr
-						derr := opt.Dispatch(dctx, rem)
-						fmt.Fprintf(pb, "dispatch.error=%s\ndispatch.ran=%s\n", errClass(derr), ran)
-						fnCancel, fnErr = nil, false
-						dcancel()
-						if reparseProbe {
-							// the same object parses the same arguments again: which command is selected and what
-							// is left over must not depend on the previous Parse/Dispatch
-							ran1 := ran
-							ran = ""
-							rem2, err2 := opt.Parse(append([]string(nil), argv...))
-							if err2 == nil {
-								opt.Dispatch(context.Background(), rem2)
-							}
-							if fmt.Sprint(rem2) != fmt.Sprint(rem) || errClass(err2) != errClass(err) || (err2 == nil && ran != ran1) {
-								fmt.Fprintf(pb, "NONIDEMPOTENT reparse: first remaining=%q error=%s ran=%q, second remaining=%q error=%s ran=%q\n", rem, errClass(err), ran1, rem2, errClass(err2), ran)
-							}
+						if sc.NoDispatch {
+							// a program that looks at its arguments itself and never calls Dispatch
+							fmt.Fprintf(pb, "dispatch.error=not-called\ndispatch.ran=\n")
+						} else {
+							func() {
+								// the context the program hands to Dispatch is part of the input
+								dctx, dcancel := context.Background(), context.CancelFunc(func() {})
+								switch sc.Ctx {
+								case "cancelled":
+									dctx, dcancel = context.WithCancel(dctx)
+									dcancel()
+								case "fn":
+									dctx, dcancel = context.WithCancel(dctx)
+									fnCancel = dcancel
+								case "deadline":
+									dctx, dcancel = context.WithDeadline(dctx, time.Unix(0, 0))
+								}
+								fnErr = sc.FnErr
+								derr := opt.Dispatch(dctx, rem)
+								fmt.Fprintf(pb, "dispatch.error=%s\ndispatch.ran=%s\n", errClass(derr), ran)
+								fnCancel, fnErr = nil, false
+								dcancel()
+								if reparseProbe {
+									// the same object parses the same arguments again: which command is selected and what
+									// is left over must not depend on the previous Parse/Dispatch
+									ran1 := ran
+									ran = ""
+									rem2, err2 := opt.Parse(append([]string(nil), argv...))
+									if err2 == nil {
+										opt.Dispatch(context.Background(), rem2)
+									}
+									if fmt.Sprint(rem2) != fmt.Sprint(rem) || errClass(err2) != errClass(err) || (err2 == nil && ran != ran1) {
+										fmt.Fprintf(pb, "NONIDEMPOTENT reparse: first remaining=%q error=%s ran=%q, second remaining=%q error=%s ran=%q\n", rem, errClass(err), ran1, rem2, errClass(err2), ran)
+									}
+								}
+							}()
 						}
 					}
 					for _, n := range nodes {
@@ -520,7 +600,11 @@ type disagreement struct {
 // check runs the scenario under k orders plus a repetition and returns the first disagreement.
 func check(sc *Scenario, seed uint64, k int, st *obsStats, nexec *int) *disagreement {
 	os := orders(seed, k)
-	if pre := observe(sc, os[0], nil); strings.Contains(pre, "\nNONIDEMPOTENT ") {
+	// the program's own tables live as long as the program: one set for all executions of this scenario
+	callerTables = map[string][]string{}
+	defer func() { callerTables = nil }()
+	pre := observe(sc, os[0], nil)
+	if strings.Contains(pre, "\nNONIDEMPOTENT ") {
 		i := strings.Index(pre, "\nNONIDEMPOTENT ")
 		line := pre[i+1:]
 		if j := strings.Index(line, "\n"); j >= 0 {
@@ -534,6 +618,9 @@ func check(sc *Scenario, seed uint64, k int, st *obsStats, nexec *int) *disagree
 	callerArgv := append(make([]string, 0, len(sc.Argv)+4), sc.Argv...)
 	base := observeArgv(sc, os[0], st, callerArgv)
 	*nexec++
+	if base != pre {
+		return &disagreement{os[0], os[0], firstDiff(pre, base), "repeat"} // the second execution in this process differs from the first
+	}
 	for _, o := range os[1:] {
 		got := observe(sc, o, st)
 		*nexec++
@@ -671,6 +758,8 @@ func writerDeviceDiff(sc *Scenario, o Order) string {
 }
 
 func differs(sc *Scenario, d *disagreement, seed uint64) *disagreement {
+	callerTables = map[string][]string{}
+	defer func() { callerTables = nil }()
 	if d.kind == "writer-device" {
 		if l := writerDeviceDiff(sc, d.a); l != "" {
 			return &disagreement{d.a, d.a, l, "writer-device"}
@@ -1207,6 +1296,8 @@ func headLines(s string, n int) []string {
 
 // differsExact replays the recorded pair of orders; returns the first difference ("" = none).
 func differsExact(rf *ReplayFile) string {
+	callerTables = map[string][]string{}
+	defer func() { callerTables = nil }()
 	if rf.Kind == "writer-device" {
 		return writerDeviceDiff(rf.Scenario, rf.OrderA)
 	}
